@@ -1883,7 +1883,9 @@ class System:
 
         names = []
         for instance in models.values():
-            times = np.array(instance.get_times()).ravel()
+            # `get_times` returns one array per timer parameter (or per time series): their lengths may differ
+            tlist = [np.ravel(item) for item in instance.get_times()]
+            times = np.concatenate(tlist).astype(float) if len(tlist) > 0 else np.array([], dtype=float)
             out = np.append(out, times)
             out = np.append(out, times - eps)
             out = np.append(out, times + eps)
